@@ -47,7 +47,6 @@ NA_PURE = {
 
 # designed in DESIGN.md §7 but not claimed (DESIGN.md §13): nothing is asserted about these
 NA_UNCLAIMED = {
- "C35": "not claimed: the designed check (sim/c35.go: renderings of every compiled program compared between VM replicas and between 16 worker processes under different CPU affinities, plus encode/decode of every emitted instruction) exists and runs quietly, but its wave of deliberate breakages (DESIGN.md §8) was not completed, so its power is unmeasured and nothing is asserted; the random-instruction and LEB128 half of the property is pure input generation and outside this technique",
  "C51": "the collections are pure in-memory functions of the operation sequence: no schedule, clock, I/O, fault or history is involved (the interval tree's math/rand priorities only change the tree shape); that is a model-based property test, not a simulation target. A seeded model comparison exists as a development aid (sim/c51.go; it led to fix 27e5e94) but is not claimed",
 }
 
